@@ -43,7 +43,8 @@ type ConcCase struct {
 	Ops        []CoreOp    `json:"ops"`        // generated history; split over the goroutines by kind
 	YieldSeed  uint64      `json:"yieldseed"`  // 0 = no yields in the lock wrapper
 	Mode       string      `json:"mode"`       // "conc" (default) or "seq" (same ops from one goroutine: baseline)
-	GoDeadlock bool        `json:"godeadlock"` // run with go-deadlock detection enabled
+	GoDeadlock bool        `json:"godeadlock"` // run with go-deadlock enabled: lock wait timeout detection only (its pairwise lock-order detection reports the single-goroutine application<->application nesting and is subsumed by the traced relation)
+	Calm       bool        `json:"calm"`       // calm workload (see concGen): the final state is judged strictly
 	Result     *ConcResult `json:"result,omitempty"`
 }
 
@@ -203,7 +204,7 @@ func (r *concRun) guard(role string, f func()) {
 }
 
 func (r *concRun) exec(role string, op *CoreOp) {
-	r.guard(role, func() { r.d.exec(op) })
+	r.guard(fmt.Sprintf("%s op=%+v", role, *op), func() { r.d.exec(op) })
 	r.opsDone.Add(1)
 	r.activity.Add(1)
 }
@@ -352,7 +353,7 @@ func runConcCase(c *ConcCase) *ConcResult {
 	r := &concRun{d: d, c: c, reg: &concRegistry{m: map[uintptr]string{}}, confirm: make(chan CoreOp, 8192), rng: NewRng(c.YieldSeed ^ 0xC14)}
 	r.router = webservice.VerifRouter(d.core.CC)
 	if c.GoDeadlock {
-		locking.VerifDeadlockDetection(true, concGoDeadlock, true)
+		locking.VerifDeadlockDetection(true, concGoDeadlock, false)
 	} else {
 		locking.VerifDeadlockDetection(false, 60, true)
 	}
